@@ -182,11 +182,11 @@ fn gen_tokens(rng: &mut Rng, only_quote: bool) -> Vec<Tok> {
             0..=3 => loop { let c = gen_scalar(rng); if c != '"' && c != '\\' { break Tok::Ch(c); } },
             4..=5 => Tok::Esc('"'),
             6..=9 => Tok::Esc(*rng.pick(&['\\', '/', 'b', 'f', 'n', 'r', 't', '"'])),
-            _ => loop {
-                let u = rng.below(0x10000) as u32;
-                if (0xd800..0xe000).contains(&u) { continue; }
-                break Tok::U(if rng.chance(1, 2) { format!("{:04x}", u) } else { format!("{:04X}", u) });
-            },
+            _ => {
+                // any code unit, surrogates included (a pair is written as two consecutive escapes by the caller's luck or below)
+                let u = match rng.below(8) { 0 => 0xd800 + rng.below(0x400) as u32, 1 => 0xdc00 + rng.below(0x400) as u32, _ => rng.below(0x10000) as u32 };
+                Tok::U(if rng.chance(1, 2) { format!("{:04x}", u) } else { format!("{:04X}", u) })
+            }
         }
     }).collect()
 }
@@ -200,8 +200,8 @@ fn str_case(out: &mut Buf, w: &World, how: How, text: &str, kind: &str) {
             round_trip(w, "s", "$v", wp, Box::new(move |p| p.add("p", t.clone()).unwrap()), &format!("\"{}\"", json_esc(text)))
         }
         How::Literal => {
-            // the value the literal denotes, computed by a JSON reader, for the parameter filter
-            let intended: String = serde_json::from_str(&format!("\"{}\"", json_esc_raw_controls(text))).unwrap_or_default();
+            // the value the literal denotes, computed independently of the implementation, for the parameter filter
+            let intended: String = literal_meaning(text);
             round_trip(w, "s", &format!("\"{}\"", text), Parameters::new(), Box::new(move |p| p.add("p", intended.clone()).unwrap()), &format!("\"{}\"", text))
         }
     };
@@ -214,11 +214,21 @@ fn str_case(out: &mut Buf, w: &World, how: How, text: &str, kind: &str) {
     out.push(Case { kind: kind.into(), coq: format!("CStr {} {}", how.coq(), gstr(text)), obs,
         meta: json!({"text": text, "stored_raw": rt.raw, "read_back": rt.back, "by_param": rt.by_param, "by_literal": rt.by_literal, "frame": rt.frame, "note": rt.note}) });
 }
-/// a literal may contain raw control characters (the grammar's ANY); a JSON reader wants them escaped
-fn json_esc_raw_controls(lit: &str) -> String {
-    let mut o = String::new();
-    for c in lit.chars() { if (c as u32) < 32 { o.push_str(&format!("\\u{:04x}", c as u32)); } else { o.push(c); } }
-    o
+/// what a literal denotes: characters themselves, escapes their JSON meaning as UTF-16 code units; units are then
+/// read as UTF-16 (a surrogate pair is one scalar, a surrogate left alone becomes U+FFFD)
+fn literal_meaning(lit: &str) -> String {
+    let cs: Vec<char> = lit.chars().collect();
+    let mut units: Vec<u16> = vec![];
+    let mut i = 0;
+    while i < cs.len() {
+        if cs[i] != '\\' { let mut b = [0u16; 2]; units.extend_from_slice(cs[i].encode_utf16(&mut b)); i += 1; continue; }
+        let e = cs[i + 1];
+        match e {
+            'u' => { let h: String = cs[i + 2..i + 6].iter().collect(); units.push(u16::from_str_radix(&h, 16).unwrap()); i += 6; }
+            _ => { units.push(match e { '"' => 34, '\\' => 92, '/' => 47, 'b' => 8, 'f' => 12, 'n' => 10, 'r' => 13, 't' => 9, o => o as u16 }); i += 2; }
+        }
+    }
+    String::from_utf16_lossy(&units)
 }
 
 // ---------------------------------------------------------------- numbers
@@ -241,13 +251,7 @@ fn flt_case(out: &mut Buf, w: &World, how: How, f: f64, kind: &str) {
     let back_bits = raw_number_bits(&rt.back_raw);
     let obs = if rt.status == 0 { vec![0, back_bits, rt.by_param, rt.by_literal, rt.frame] } else { vec![rt.status] };
     let digits = format!("{:e}", f).split('e').next().unwrap().chars().filter(|c| c.is_ascii_digit()).count();
-    // Display text of the value, read as SQL reads a numeric literal: digits only and within i64 => INTEGER
-    let disp = format!("{}", f);
-    let display_exact = match disp.parse::<i64>() {
-        Ok(i) => f == (i as f64) && (i as f64) as i128 == i as i128 && (f as i128) == i as i128,
-        Err(_) => disp.parse::<f64>().map(|g| g.to_bits() == f.to_bits() || (g == 0.0 && f == 0.0)).unwrap_or(false),
-    };
-    out.push(Case { kind: kind.into(), coq: format!("CFlt {} {} {} {}", how.coq(), gz(f.to_bits() as i64), gz(tb), gb(display_exact)), obs,
+    out.push(Case { kind: kind.into(), coq: format!("CFlt {} {} {}", how.coq(), gz(f.to_bits() as i64), gz(tb)), obs,
         meta: json!({"value": format!("{:e}", f), "literal": text, "digits": digits, "stored_raw": rt.raw, "read_back_raw": rt.back_raw, "by_param": rt.by_param, "by_literal": rt.by_literal, "note": rt.note}) });
 }
 fn int_case(out: &mut Buf, w: &World, how: How, z: i64) {
@@ -402,9 +406,7 @@ fn statements(out: &mut Buf, rng: &mut Rng) {
                 Ok(sql) => {
                     let mut p = Parameters::new();
                     if text.contains("$v") { p.add("v", String::from("given")).unwrap(); }
-                    // the outcome is compared only when the quotes of the default come in pairs (see Run_C04.quotes_paired)
-                    let paired = { let cs: Vec<char> = d.chars().collect(); let mut i = 0; let mut ok = true; while i < cs.len() { if cs[i] == '\'' { if i + 1 < cs.len() && cs[i + 1] == '\'' { i += 2; continue; } ok = false; break; } i += 1; } ok };
-                    match query(&w, &w.dm, &text, p) { Ok(_) => (sql, if paired { 1 } else { 2 }, String::new()), Err(e) => (sql, if paired { 0 } else { 2 }, e) }
+                    match query(&w, &w.dm, &text, p) { Ok(_) => (sql, 1, String::new()), Err(e) => (sql, 0, e) }
                 }
             };
             let mut obs = vec![ok];
@@ -448,6 +450,9 @@ fn main() {
     str_case(&mut out, &w, How::Literal, "line\\nbreak", "directed-K1-literal-newline-escape");
     str_case(&mut out, &w, How::Literal, "\\u0041", "directed-K1-literal-unicode-escape");
     str_case(&mut out, &w, How::Literal, "say \\\"hi\\\"", "directed-literal-escaped-quote-ok");
+    str_case(&mut out, &w, How::Literal, "\\ud83d\\ude00", "directed-literal-surrogate-pair");
+    str_case(&mut out, &w, How::Literal, "a\\ud83db", "directed-literal-lone-high-surrogate");
+    str_case(&mut out, &w, How::Literal, "\\ude00\\ud83d", "directed-literal-reversed-surrogates");
     str_case(&mut out, &w, How::Param, "it's \"quoted\"", "directed-param-quotes-ok");
     str_case(&mut out, &w, How::Param, "'; DROP TABLE _node; --", "directed-param-sql");
     str_case(&mut out, &w, How::Literal, "'; DROP TABLE _node; --", "directed-literal-sql");
@@ -470,7 +475,7 @@ fn main() {
     for _ in 0..scale(60, 600) { let z = rng.next() as i64 >> rng.below(64); int_case(&mut out, &w, if rng.chance(1, 2) { How::Param } else { How::Literal }, z); }
     // floats
     for f in [0.0f64, -0.0, 1.0, 0.1, 0.2, 0.1 + 0.2, 1.0 / 3.0, 2.5e-8, 1e21, 1e22, 1e300, f64::MAX, f64::MIN_POSITIVE, 5e-324, 4.9406564584124654e-324, 1.7976931348623157e308,
-              123456789.12345678, 9007199254740993.0, 0.30000000000000004, 1e15, 1e16, 123456789012345680.0, 2.2250738585072014e-308, 1.5, -2.75] {
+              123456789.12345678, 9007199254740993.0, 8.407903850944054e17, 1.2345678901234567e17, -1.2698320800958502e18, 9007199254740994.0, 1e17, 0.30000000000000004, 1e15, 1e16, 123456789012345680.0, 2.2250738585072014e-308, 1.5, -2.75] {
         flt_case(&mut out, &w, How::Param, f, "float-directed"); flt_case(&mut out, &w, How::Literal, f, "float-directed");
     }
     for _ in 0..scale(150, 2000) {
